@@ -57,6 +57,8 @@ func runC03(c *Ctx, r *Report) {
 	r.Rule("C02.R2", "(shared) operator printers consult precedence: output that re-parses to a different tree is not a fixpoint")
 	r.Rule("C02.R5", "(shared) statement separation and the previous-sibling typestate")
 	r.Rule("C02.R6", "(shared) a value-less return ends its block (its printed form absorbs a following statement)")
+	r.Rule("C02.R4", "(shared) every escape the printer emits is decoded to the bytes it denotes (otherwise the second pass prints a different literal)")
+	r.Rule("C02.R7", "(shared) printers restore the enclosing precedence")
 
 	reach := c.formatterReach()
 	if len(reach) < 80 {
@@ -195,9 +197,10 @@ func runC03(c *Ctx, r *Report) {
 	}
 	// shared
 	sub := NewReport("C02", r.Tier, c)
+	sub.Sub = true
 	runC02(c, sub)
 	for _, o := range sub.Obls {
-		if o.Rule != "C02.R2" && o.Rule != "C02.R5" && o.Rule != "C02.R6" {
+		if o.Rule != "C02.R2" && o.Rule != "C02.R4" && o.Rule != "C02.R5" && o.Rule != "C02.R6" && o.Rule != "C02.R7" {
 			continue
 		}
 		if o.status == FAIL {
